@@ -7,7 +7,8 @@ Lemma find_crlf_first : forall x i, find_crlf x = Some i -> find_crlf (firstn (i
 Proof.
   induction x as [|a t IH]; intros i H; [discriminate|].
   rewrite find_crlf_cons in H. destruct (starts_crlf (a :: t)) eqn:S0.
-  - inversion H; subst. cbn. destruct t; reflexivity.
+  - inversion H; subst. change (firstn (0 + 1) (a :: t)) with [a]. unfold find_crlf, CRLF. cbn [find prefixb].
+    rewrite andb_false_r. reflexivity.
   - destruct (find_crlf t) as [j|] eqn:F; [|discriminate]. cbn in H. inversion H; subst.
     change (S j + 1)%nat with (S (j + 1)). cbn [firstn]. rewrite find_crlf_cons.
     assert (S1 : starts_crlf (a :: firstn (j + 1) t) = false).
@@ -35,7 +36,7 @@ Proof.
   { unfold f. rewrite firstn_firstn. f_equal. lia. }
   assert (Ef : f = firstn i w ++ CRLF ++ skipn (i + 2) f).
   { rewrite <- (firstn_skipn i f) at 1. rewrite E1. f_equal. rewrite Hs at 1. f_equal.
-    rewrite skipn_skipn. f_equal. lia. }
+    symmetry. apply skipn_add. }
   assert (Li : length (firstn i w) = i) by (rewrite firstn_length; lia).
   assert (Ew : w = firstn i w ++ CRLF ++ skipn (i + 2) w).
   { rewrite <- (firstn_skipn BUF w) at 1. fold f. rewrite Ef at 1. rewrite <- !app_assoc. f_equal. f_equal.
@@ -73,7 +74,8 @@ Fixpoint first_req (o : list out) : option (request_line * headers * option byte
 Lemma outs_acc ph w acc : outs_of (runT ph w acc) = acc ++ outs_of (runT ph w []).
 Proof.
   rewrite (runT_acc BUF L (S (rank ph w)) ph w acc) by lia.
-  destruct (ConnSpec.runT BUF L ph w []); cbn; rewrite ?app_nil_r; reflexivity.
+  destruct (ConnSpec.runT BUF L ph w []) eqn:E; cbn; rewrite ?app_nil_r; try reflexivity.
+  exfalso. exact (runT_not_out_of_fuel BUF L ph w [] E).
 Qed.
 
 (* waiting for the body: the request delivered next is this one, with the next `left` bytes *)
@@ -150,6 +152,27 @@ Proof.
   destruct (hdr_phase_inv (S (length r)) rl headers_default r x ltac:(lia) H)
     as (hs & hd & body & rest & Er & Hall & Hf & Hlim & Hlen & Hx).
   exists l, rl, hs, hd, body, rest. rewrite Es, Er. repeat split; auto.
+Qed.
+
+Lemma first_req_interim rl hd x tl : first_req (interim rl hd ++ ORequest rl hd x :: tl) = Some (rl, hd, x).
+Proof. unfold interim. destruct (h_content_length hd =? 0); [reflexivity|]. destruct (h_expect hd); reflexivity. Qed.
+
+(* the grammar, as an equivalence: the first request the whole-stream parser delivers is x iff
+   the stream starts with a well-formed encoding of x *)
+Theorem first_delivery_iff s x :
+  first_req (outs_of (parse_stream BUF L s)) = Some x <->
+  exists rlb rl hs hd body rest,
+    s = rlb ++ CRLF ++ Grammar_proofs.with_crlf hs ++ CRLF ++ body ++ rest /\
+    parse_reqline rlb = Ok rl /\ line_ok rlb /\
+    Forall (fun l => l <> [] /\ line_ok l) hs /\ fold_lines headers_default hs = Ok hd /\
+    h_content_length hd <= L /\ lenN body = h_content_length hd /\
+    x = (rl, hd, delivered_body hd body).
+Proof.
+  split; [apply delivered_wellformed|].
+  intros (rlb & rl & hs & hd & body & rest & -> & Prl & Hrl & Hall & Hf & Hlim & Hlen & ->).
+  unfold parse_stream.
+  rewrite (wellformed_delivered BUF BUF_min L rlb rl hs hd body rest [] Prl Hrl Hall Hf Hlim Hlen).
+  rewrite outs_acc. cbn [app]. rewrite <- app_assoc. cbn [app]. apply first_req_interim.
 Qed.
 
 End Conv.
